@@ -122,7 +122,12 @@ pub fn bytes_to_f64(bytes: &[u8]) -> f64 {
         return 0.0;
     }
 
-    result *= 2.0_f64.powi(exponent_with_bias - DOUBLE_BIAS);
+    if exponent_with_bias == 0 {
+        // subnormal: 0.significant * 2 ^ (1 - bias)
+        result = (result - 1.0) * 2.0_f64.powi(1 - DOUBLE_BIAS);
+    } else {
+        result *= 2.0_f64.powi(exponent_with_bias - DOUBLE_BIAS);
+    }
     if sign { -result } else { result }
 }
 
